@@ -327,6 +327,12 @@ func flushBuf(pos int, obuf []byte, normalizeWord bool, ld *dictionary) tokenID 
 	// escape sequences can occur anywhere in the string, not just the beginning
 	// so always attempt to unescape the word's content.
 	token = html.UnescapeString(token)
+	if normalizeWord {
+		// The runes were lower-cased when they were buffered, but a letter that
+		// is written as a character reference ("&#65;", "&Eacute;") only
+		// appears now.
+		token = strings.ToLower(token)
+	}
 
 	clean := normalizeToken(token)
 
